@@ -43,6 +43,7 @@ type c03Sys struct {
 	url     *j.URL
 	incl    []func() j.Resource
 	names   []string
+	grown   int
 }
 
 func c03IncludePool() ([]func() j.Resource, []string) {
@@ -53,6 +54,8 @@ func c03IncludePool() ([]func() j.Resource, []string) {
 			mk(docT, true, "1"), mk(docT, false, "1"), mk(docT, true, "2"), mk(docU, true, "1"), mk(docU, false, "1"), mk(docU, true, "2"), mk(docT, true, "3"),
 		}, []string{
 			"Include(soft t/1)", "Include(wrapped t/1)", "Include(soft t/2)", "Include(soft u/1)", "Include(wrapped u/1)", "Include(soft u/2)", "Include(soft t/3)",
+			// the primary data may still grow (or be assigned) between two Include calls
+			"primary data gains t/3",
 		}
 }
 
@@ -96,7 +99,7 @@ func c03New(primary int) *c03Sys {
 }
 
 func (y *c03Sys) Key() string {
-	s := ""
+	s := fmt.Sprint(y.grown, ";")
 	for _, r := range y.doc.Included {
 		s += fmt.Sprintf("%T %s/%v;", r, r.GetType().Name, r.Get("id"))
 	}
@@ -106,7 +109,25 @@ func (y *c03Sys) Key() string {
 func (y *c03Sys) Apply(op int) (fails []mc.Violation, fatal bool) {
 	name := y.names[op]
 	where := fmt.Sprintf("primary=%s", c03Primaries[y.primary])
-	if p := Try(func() { y.doc.Include(y.incl[op]()) }); p != "" {
+	if op == len(y.incl) {
+		if y.grown > 0 {
+			return nil, false
+		}
+		for _, r := range y.doc.Included {
+			if r.GetType().Name == "t" && r.Get("id") == "3" {
+				// adding to the primary data what was already included is the caller's doing, not Include's
+				return nil, false
+			}
+		}
+		y.grown++
+		soft := y.primary != 1 && y.primary != 4
+		r := docRes(docT, soft, "3", 2)
+		if col, ok := y.doc.Data.(j.Collection); ok {
+			col.Add(r)
+		} else {
+			y.doc.Data = r
+		}
+	} else if p := Try(func() { y.doc.Include(y.incl[op]()) }); p != "" {
 		return []mc.Violation{{Sig: "C03:include:panic", Msg: fmt.Sprintf("%s: %s panicked: %s", where, name, p)}}, true
 	}
 	var out []byte
@@ -152,9 +173,9 @@ func init() {
 			ReplayCustom: func(c *Ctx, ch []int) []mc.Violation { v, _ := c03BFS(c, p).ReplayHistory(ch); return v }})
 	}
 	Register(&Prop{
-		ID: "C03",
-		Rule: "Engine A: the complete product 14 primary-data kinds (nil, soft/wrapped/escape-needing resource, Resources/SoftCollection/WrapperCollection of 0..3, Identifier, Identifiers of 0/2) x 5 included lists x 4 metas x 3 error lists x 6 path prefixes (with / without / with several trailing slashes) x 3 field selections x 2 relationship-data requests; every successful marshal is parsed by an independent JSON:API structure validator (jsonapi member, self link, data xor errors, included only with data, resource-object type/id/self link = prefix+type+id, relationship links and data shape). Engine B: for 7 primary-data implementations, ALL sequences (depth <= 4 quick / 6 thorough) of Include over 7 resources colliding with primary data, with each other (same pair as a different object / implementation) or with nothing; after every Include the marshaled document is validated and no type/ID pair may appear twice. Non-trivial = distinct successful output",
-		Assumptions: []string{"non-empty ids and type names", "uniqueness applies to resource objects (an identifier in data plus the full resource in included is fine)"},
-		Harnesses: hs,
+		ID:          "C03",
+		Rule:        "Engine A: the complete product 19 primary-data kinds (nil, soft/wrapped/escape-needing/ID-less resource, resources with every kind at its extremes, Resources/SoftCollection/WrapperCollection of 0..3, Identifier, Identifiers of 0/2) x 5 included lists x 4 metas x 3 error lists x 6 path prefixes (with / without / with several trailing slashes) x 3 field selections x 2 relationship-data requests; every successful marshal is parsed by an independent JSON:API structure validator (jsonapi member, self link, data xor errors, included only with data, resource-object type/id/self link = prefix+type+id, relationship links and data shape). Engine B: for 7 primary-data implementations, ALL sequences (depth <= 4 quick / 6 thorough) of Include over 7 resources colliding with primary data, with each other (same pair as a different object / implementation) or with nothing, interleaved with the primary data gaining a resource (collection Add / Data assigned late); after every Include the marshaled document is validated and no type/ID pair may appear twice. Non-trivial = distinct successful output",
+		Assumptions: []string{"non-empty type names; a resource without ID must still carry a string id member, but the text of its links is not judged beyond the library's own convention (bare prefix)", "uniqueness applies to resource objects (an identifier in data plus the full resource in included is fine)"},
+		Harnesses:   hs,
 	})
 }
